@@ -269,21 +269,35 @@ def run(ctx):
     # look at records at all; json fails as a whole
     bad_frames = frames[:3] + [gens.frame(4, b"P|one|not-a-number", True)] + frames[3:]
     import logging
-    for fmt, frames, level in [(n, fs, lv) for n in names if not (n in seen or seen.add(n))
-                               for fs, lv in ((good_frames, logging.DEBUG), (bad_frames, logging.DEBUG), (bad_frames, logging.INFO))]:
-        with common.log_level(level):
-            c = impl.Conn(fmt=fmt, use_default_fmt=(fmt is None))
-            c.event(("d", b"\x05"))
-            for fr in frames:
-                c.event(("d", fr))
-            ob = c.event(("d", b"\x04"))
+    combos = [(n, fs, lv, None) for n in names if not (n in seen or seen.add(n))
+              for fs, lv in ((good_frames, logging.DEBUG), (bad_frames, logging.DEBUG), (bad_frames, logging.INFO))]
+    # the optional raw copy (./astm_messages) cannot be written (a plain file of that name): the delivery is the same
+    combos += [(n, good_frames, logging.DEBUG, "plain-file") for n in ("astm", "lis2a", "json", None, "xml")]
+    store = os.path.join(impl.private_cwd(), "astm_messages")
+    for fmt, frames, level, store_state in combos:
+        if store_state:
+            with open(store, "wb") as fh:
+                fh.write(b"not a folder")
+        try:
+            with common.log_level(level):
+                c = impl.Conn(fmt=fmt, use_default_fmt=(fmt is None))
+                c.event(("d", b"\x05"))
+                for fr in frames:
+                    c.event(("d", fr))
+                ob = c.event(("d", b"\x04"))
+        finally:
+            if store_state:
+                os.remove(store)
         if frames is bad_frames and (fmt == "json" or fmt is None):
             f.case({"format": fmt, "violating_record": True})
             if ob["delivered"]:
                 f.fail({"format": fmt, "item": repr(ob["delivered"][0])[:200]},
                        "json delivers something for a transmission with a schema-violating record", "format-dispatch/json-partial")
             continue
-        f.case({"format": fmt, "violating_record": frames is bad_frames, "log_level": logging.getLevelName(level)})
+        f.case({"format": fmt, "violating_record": frames is bad_frames, "log_level": logging.getLevelName(level),
+                "raw_copy_store": store_state})
+        if store_state:
+            f.count("raw copy cannot be written")
         f.count("known" if fmt in ("astm", "json", None) else "other-name")
         item = ob["delivered"][0] if ob["delivered"] else None
         if fmt == "astm":
@@ -296,7 +310,7 @@ def run(ctx):
             exp = b"".join(x.rstrip(b"\r\n")[2:-2] for x in frames).decode("latin-1")
             good = item == exp
         if not good:
-            f.fail({"format": fmt, "item": repr(item)[:200]},
+            f.fail({"format": fmt, "item": repr(item)[:200], "raw_copy_store": store_state},
                    "format %r does not deliver the %s rendering" % (fmt, "json" if fmt in ("json", None) else (fmt if fmt == "astm" else "lis2a")),
                    "format-dispatch/%s" % (fmt or "default"))
     streams.append(f)
